@@ -143,6 +143,10 @@ def check_set(acc: Acc, ctx: Ctx, aset, r: int, xs, results_out=None) -> None:
     got = {}
     for name in DEFUZZ:
         z = ctx.defuzzifier(name, r).defuzzify(agg, a, b)
+        z_again = ctx.defuzzifier(name, r).defuzzify(agg, a, b) if r in (3, 5) else z  # repeatability (two resolutions)
+        if not np.array_equal(np.asarray(z, dtype=float), np.asarray(z_again, dtype=float), equal_nan=True):
+            acc.violate("not-repeatable", {"defuzzifier": name}, {**case, "defuzzifier": name}, fl.Op.str(z), fl.Op.str(z_again),
+                        f"{name}: defuzzifying the same set twice gives {z} then {z_again}")
         acc.case((a, b, aset, ctx.impl_name, ctx.aggr_name, r, name), nontrivial=not allzero)
         if np.shape(z) != ():
             acc.violate("result-shape", {"defuzzifier": name}, {**case, "defuzzifier": name}, "()", list(np.shape(z)), "scalar set, non-scalar result")
@@ -198,6 +202,7 @@ def check_batch(acc: Acc, ctx: Ctx, pair, r: int) -> None:
     d1 = np.array([rw[0] for rw in rows])
     d2 = np.array([rw[1] for rw in rows])
     agg = ctx.aggregated(aset, degrees=[d1, d2])
+    keep1, keep2 = d1.copy(), d2.copy()
     for name in DEFUZZ:
         z = ctx.defuzzifier(name, r).defuzzify(agg, ctx.a, ctx.b)
         case = {"range": [ctx.a, ctx.b], "set": [[pair[0], "batch"], [pair[1], "batch"]], "implication": ctx.impl_name,
@@ -213,6 +218,9 @@ def check_batch(acc: Acc, ctx: Ctx, pair, r: int) -> None:
             if not close(float(z[k]), single, 1e-12, 1e-12):
                 acc.violate("batch-vs-scalar", {"defuzzifier": name}, {**case, "row": k}, single, float(z[k]),
                             f"{name}: row {k} of the batch gives {float(z[k])!r}, the set alone gives {single!r}")
+        if not (np.array_equal(d1, keep1) and np.array_equal(d2, keep2)):
+            acc.violate("input-array-modified", {"defuzzifier": name}, case, "degrees unchanged", "overwritten", f"{name} modifies the activation degrees")
+            return
 
 
 def run_shard(tier: str, seed: int, shard):
